@@ -75,7 +75,7 @@ def run_case(desc):
         if bool(chiral) != expect:
             out.fail("chiral-iff-sohncke", "%s description (%s): detected group %d is %sa Sohncke group but get_is_chiral() = %r"
                      % (tag, gx.pres_class(pres), sgn, "" if expect else "not ", chiral), key="chiral-iff-sohncke:" + ("sohncke" if expect else "achiral"))
-        flags.append((int(sgn), bool(chiral)))
+        flags.append((int(sgn), bool(chiral), int(ds.number)))
     # history: one analyser object re-used through the public set_system() for a different crystal must answer for the
     # crystal it currently holds (a stale cache would repeat the previous answer)
     if desc.get("other") is not None:
@@ -112,8 +112,12 @@ def run_case(desc):
                 if r[2] != exp:
                     out.fail("chiral-iff-sohncke-after-set_system", "after set_system() the analyser holds a group-%d crystal (%sSohncke) but get_is_chiral() = %r (it answered %r for the previous crystal)"
                              % (int(ds_o.number), "" if exp else "not ", r[2], r[0]))
-    if flags[0][0] == flags[1][0] and flags[0][1] != flags[1][1]:
-        out.fail("presentation-independent", "flag %r in the standard setting, %r after %s" % (flags[0][1], flags[1][1], gx.pres_class(p)))
+    # the answer must not depend on how the crystal is supplied: both descriptions are the same well-conditioned crystal (the
+    # independent symmetry search finds the same group for both), so the two flags must agree - also when MatID's own group
+    # detection was thrown off by the presentation
+    if flags[0][2] == flags[1][2] and flags[0][1] != flags[1][1]:
+        out.fail("presentation-independent", "flag %r in the standard setting (detected group %d), %r after %s (detected group %d); independent search: group %d for both"
+                 % (flags[0][1], flags[0][0], flags[1][1], gx.pres_class(p), flags[1][0], flags[0][2]))
     _COVER[flags[0][0]] = _COVER.get(flags[0][0], 0) + 1
     out.cls("sohncke" if flags[0][0] in spgref.sohncke() else "achiral", *gx.pres_labels(p), "intended-group" if flags[0][0] == desc["crystal"]["sg"] else "promoted")
     out.nontrivial = bool(p.get("shear") is not None or p.get("hnf") is not None or p.get("lefthanded"))
